@@ -47,6 +47,40 @@ func simPause(cs *compState) {
 		scripts = append(scripts, sc)
 	}
 	cs.sample["scripts"] = scripts
+	// "any number of subscribed workers" includes none: sometimes a controller runs a cycle before any worker exists
+	var prelude []string
+	if cs.Chance(1, 3) {
+		prelude = [][]string{{"pause", "resume"}, {"resume"}, {"pause", "resume", "resume"}, {"pause", "pause", "resume"}, {"pause", "resume", "pause", "resume"}}[cs.Draw(5)]
+	}
+	cs.sample["prelude"] = prelude
+	preludeDone := len(prelude) == 0
+	if len(prelude) > 0 {
+		cs.Go("prelude", func() {
+			for i, op := range prelude {
+				k.Park("prelude", "comp.prelude."+op, i)
+				cs.Enter("prelude", op+"() with no subscriber")
+				if op == "pause" {
+					pause.Pause("sim")
+				} else {
+					pause.Resume()
+				}
+				cs.Leave("prelude")
+			}
+			// every script ends with a resume after the last pause: the manager must be running again
+			if pause.IsPaused() {
+				k.Violate("C14", "state", "still-paused-after-resume", fmt.Sprintf("with no subscriber, %v was called in sequence and every call returned, yet IsPaused() is still true", prelude))
+			}
+			k.Probe("c14-cycles-without-subscribers")
+			mm.Lock()
+			preludeDone = true
+			mm.Unlock()
+		})
+	}
+	// exact model for a single controller (calls cannot overlap): which pauses took effect, and who must have acknowledged them
+	model := "running"
+	ackN := map[string]int{}
+	alive := map[string]bool{}
+	var atPause map[string]int
 	for s := 0; s < nSub; s++ {
 		actor := fmt.Sprintf("worker%d", s)
 		exitAfter := -1
@@ -54,14 +88,28 @@ func simPause(cs *compState) {
 			exitAfter = cs.Draw(4)
 		}
 		cs.Go(actor, func() {
+			for {
+				mm.Lock()
+				ok := preludeDone
+				mm.Unlock()
+				if ok {
+					break
+				}
+				k.Park(actor, "comp.worker.wait")
+			}
 			chans := pause.Subscribe()
 			defer pause.Unsubscribe(chans)
 			mm.Lock()
 			subscribed++
+			alive[actor] = true
 			mm.Unlock()
+			defer func() { mm.Lock(); delete(alive, actor); mm.Unlock() }()
 			taken := 0
 			for {
 				if exitAfter >= 0 && taken >= exitAfter {
+					mm.Lock()
+					delete(alive, actor)
+					mm.Unlock()
 					k.Note(actor, "comp.worker.exit")
 					return
 				}
@@ -72,6 +120,7 @@ func simPause(cs *compState) {
 					mm.Lock()
 					acked[actor] = true
 					resumeSeen[actor] = false
+					ackN[actor]++
 					mm.Unlock()
 					k.Park(actor, "comp.ack")
 					select {
@@ -129,9 +178,21 @@ func simPause(cs *compState) {
 				k.Park(actor, "comp."+op+".begin", i)
 				switch op {
 				case "pause":
+					if nCtl == 1 && model == "running" {
+						mm.Lock()
+						model = "paused"
+						atPause = map[string]int{}
+						for a := range alive {
+							atPause[a] = ackN[a]
+						}
+						mm.Unlock()
+					}
 					cs.Enter(actor, "Pause()")
 					pause.Pause("sim")
 					cs.Leave(actor)
+					if nCtl == 1 && !pause.IsPaused() {
+						k.Violate("C14", "state", "not-paused-after-pause", "a single controller called Pause() while the pipeline was running; the call returned and IsPaused() is false")
+					}
 				case "resume":
 					mm.Lock()
 					for a := range acked {
@@ -159,6 +220,26 @@ func simPause(cs *compState) {
 					if len(stuck) > 0 && others == 0 {
 						sort.Strings(stuck)
 						k.Violate("C14", "resume-wakes-all", "worker-not-woken", fmt.Sprintf("Resume() returned but %v are still blocked in the resume handshake", stuck))
+					}
+					if nCtl == 1 && model == "paused" {
+						// the pause that this resume ends took effect: every worker that was subscribed throughout acknowledged it
+						mm.Lock()
+						model = "running"
+						var deaf []string
+						for a, n := range atPause {
+							if alive[a] && ackN[a] == n {
+								deaf = append(deaf, a)
+							}
+						}
+						mm.Unlock()
+						if len(deaf) > 0 {
+							sort.Strings(deaf)
+							k.Violate("C14", "pause-stops-all", "pause-never-reached-worker", fmt.Sprintf("a single controller paused the running pipeline and resumed it; both calls returned, but %v (subscribed the whole time) never saw the pause", deaf))
+						}
+						if pause.IsPaused() {
+							k.Violate("C14", "state", "still-paused-after-resume", "a single controller resumed the paused pipeline; the call returned and IsPaused() is still true")
+						}
+						k.Probe("c14-exact-model-cycles")
 					}
 				}
 				k.Park(actor, "comp."+op+".end", i)
